@@ -14,10 +14,12 @@ pub static C07: C07Prop = C07Prop;
 const OFF: &[&str] = &[
     "// pasfmt off", "//pasfmt off", "//pasfmt OFF", "{ pasfmt off }", "{pasfmt off}", "(* pasfmt off *)",
     "(* PasFmt Off trailing words *)", "//  PASFMT   off", "{ pasfmt off: reason }", "// pasfmt off and more",
+    // trailing blanks belong to a `//` comment (and so to the region)
+    "// pasfmt off  ", "//pasfmt off\t",
 ];
 const ON: &[&str] = &[
     "// pasfmt on", "//pasfmt on", "//pasfmt ON", "{ pasfmt on }", "{pasfmt on}", "(* pasfmt on *)",
-    "(* PasFmt On again *)", "//\tpasfmt\ton",
+    "(* PasFmt On again *)", "//\tpasfmt\ton", "// pasfmt on   ", "//pasfmt on \t ", "// pasfmt on\t",
 ];
 /// spellings that must NOT toggle
 const NOT_TOGGLES: &[&str] = &[
@@ -219,11 +221,35 @@ impl Prop for C07Prop {
         if !wf::scans_to(&input, &p) {
             return None;
         }
+        // sandwich placement: a second rendering that differs only in the layout of the enabled
+        // stretch inside the statement (code outside the regions is formatted, so the output
+        // may not depend on it)
+        let mut input2 = None;
+        if p.tags.contains("toggle:sandwich") {
+            let i_on = p.toks.iter().position(|x| x.inserted && !x.line_start && toggle::parse_toggle(&x.text) == Some(true));
+            if let Some(i_on) = i_on {
+                let i_off = p.toks.iter().enumerate().skip(i_on + 1).find(|(_, x)| x.inserted && toggle::parse_toggle(&x.text) == Some(false)).map(|(k, _)| k);
+                if let Some(i_off) = i_off {
+                    let fresh = layout::relayout(&p, &gaps, t);
+                    let mut g2 = gaps.clone();
+                    for k in (i_on + 2)..i_off {
+                        if !gaps[k].fixed {
+                            g2[k] = fresh[k].clone();
+                        }
+                    }
+                    let r2 = layout::render(&p, &g2);
+                    if g2 != gaps && wf::scans_to(&r2, &p) {
+                        input2 = Some(r2);
+                    }
+                }
+            }
+        }
         let w = wf::Wf { prog: p, gaps, input, style };
         let mut c = wf::case_of(&w, cfg, stream);
+        c.input2 = input2;
         // line-ending variants of the whole file: the regions must survive byte for byte whatever
         // the endings are (lone CR is the open finding F-C07-cr)
-        match t.below(8) {
+        match if c.input2.is_some() { 7 } else { t.below(8) } {
             0 | 1 => {
                 c.input = c.input.replace('\n', "\r\n");
                 c.tags.push("endings:crlf".into());
@@ -240,6 +266,41 @@ impl Prop for C07Prop {
         let x = &case.input;
         let out = format_with(&case.cfg, x);
         let logf = logcap::facts();
+        if let Some(r2) = &case.input2 {
+            // code outside the regions is still formatted: re-laying out an enabled stretch
+            // between two regions changes nothing
+            let out2 = format_with(&case.cfg, r2);
+            ctx.class("asserted:enabled-stretch-between-regions-is-formatted");
+            if out2 != out {
+                let d = out.bytes().zip(out2.bytes()).position(|(a, b)| a != b).unwrap_or(out.len().min(out2.len()));
+                let mut s0 = d.saturating_sub(30);
+                while !out.is_char_boundary(s0) {
+                    s0 -= 1;
+                }
+                let a: String = out[s0..].chars().take(70).collect();
+                let mut s1 = d.saturating_sub(30).min(out2.len());
+                while !out2.is_char_boundary(s1) {
+                    s1 -= 1;
+                }
+                let b: String = out2[s1..].chars().take(70).collect();
+                // The wrapper mostly leaves a logical line that contains ignored tokens as typed
+                // (line breaks, indentation: open finding); the per-token rules still apply to its
+                // enabled tokens. Is the spacing between two tokens on one line canonical?
+                let bad_gap = crate::props::c08::check_ws(&out, &case.cfg)
+                    .iter()
+                    .chain(crate::props::c08::check_ws(&out2, &case.cfg).iter())
+                    .any(|f| f.clause == "gap" && f.facts.iter().any(|x| x == "not-before-toggle"));
+                return Outcome::Fail(
+                    Failure::new(
+                        "outside-not-formatted",
+                        format!("the layout of enabled code between two regions changes the output: {:?} vs {:?}", a, b),
+                    )
+                    .fact(if bad_gap { "noncanonical-gap-outside-regions" } else { "gaps-canonical" })
+                    .facts(&logcap::facts())
+                    .facts(&logf),
+                );
+            }
+        }
         if let Err(f) = c01::check_nonblank(x, &out) {
             return Outcome::Fail(f.fact("nonblank-precondition"));
         }
